@@ -8,6 +8,12 @@ CLAIMS = {
    design_ref="DESIGN.md §4 C08",
    note="Trusted: Coq kernel; hand-written model coq/C08/Model.v; correspondence harness harness/c08.py (generators, part walker); exp.bytes()/cst.to_bytes exercised through the implementation only.",
    technique="Coq refinement proof + model/implementation correspondence on generated histories"),
+ "C04": dict(
+   category="proof",
+   text="Coq theorems: any decoder tree satisfying the routing invariant (tree_ok) selects, for every byte string of any length, both fetch endiannesses (incl. left-justified short specs), every setup-function behaviour and through prefix recursion, exactly the spec chosen by the most-constrained-first linear scan. Regeneration tie: on every run the live tree and weight-sorted spec list of every importable cpu module/mode are dumped from /repo and tree_ok is re-evaluated on them by the Coq kernel (one generated obligation per tree); disassemble(b) is compared with a reference scan on random, spec-derived, truncated, neighbouring and prefixed inputs (search oracle).",
+   design_ref="DESIGN.md §4 C04",
+   note="Trusted: Coq kernel incl. vm_compute; harness/c04.py dumper (live objects -> Gallina literals); ispec.decode used as accept predicate on both sides (its meaning is C03). setup() itself is not modelled: its output is validated per run.",
+   technique="Coq proof of invariant=>equivalence + per-run kernel re-check of regenerated live trees + differential scan"),
 }
 NOT_YET = {}
 def main():
